@@ -28,19 +28,6 @@ variable {R B O Args Res κ ν : Type} [DecidableEq κ]
 
 /-! ### the schedule-level argument -/
 
-/-- `iter f n a`: apply `f` to `a`, `n` times -/
-def iter {α' : Type} (f : α' → α') : Nat → α' → α'
-  | 0, a => a
-  | n + 1, a => iter f n (f a)
-
-/-- number of moves of goroutine `g` in a schedule -/
-def moves (g : Nat) : Schedule → Nat
-  | [] => 0
-  | s :: rest => (if s.1 = g then 1 else 0) + moves g rest
-
-def GInv (M : Sem R B O Args Res κ ν) (W : Laws M) (calls : Nat → Call Args κ) (σ : State R B Res κ ν) : Prop :=
-  SharedInv M W σ.shared ∧ ∀ g, LocalGood M W (calls g) (σ.locals g)
-
 /-- **Ownership exclusivity.**  A move of goroutine `g'` leaves the local state of every other goroutine
     -- the runner, buffer and replacement data it currently owns, and its progress -- untouched. -/
 theorem ownership_exclusive (M : Sem R B O Args Res κ ν) (calls : Nat → Call Args κ) (g g' ch : Nat)
@@ -57,93 +44,6 @@ theorem step_independent_of_shared_state (M : Sem R B O Args Res κ ν) (W : Law
     α M (stepG M c ch S L).2 = absStep M W c (α M L) ∧
     SharedInv M W (stepG M c ch S L).1 ∧ LocalGood M W c (stepG M c ch S L).2 :=
   stepG_abs M W c ch S L hS hL
-
-theorem exec_abs (M : Sem R B O Args Res κ ν) (W : Laws M) (calls : Nat → Call Args κ) :
-    ∀ (sch : Schedule) (σ : State R B Res κ ν), GInv M W calls σ →
-      GInv M W calls (exec M calls sch σ) ∧
-      ∀ g, α M ((exec M calls sch σ).locals g) = iter (absStep M W (calls g)) (moves g sch) (α M (σ.locals g)) := by
-  intro sch
-  induction sch with
-  | nil => intro σ h; exact ⟨h, fun g => rfl⟩
-  | cons s rest ih =>
-    intro σ h
-    obtain ⟨g0, ch⟩ := s
-    have hstep := stepG_abs M W (calls g0) ch σ.shared (σ.locals g0) h.1 (h.2 g0)
-    have hinv : GInv M W calls (exec1 M calls (g0, ch) σ) := by
-      refine ⟨hstep.2.1, ?_⟩
-      intro g
-      by_cases hg : g = g0
-      · subst hg; simp only [exec1, if_true]; exact hstep.2.2
-      · simp only [exec1, hg, if_false]; exact h.2 g
-    obtain ⟨h1, h2⟩ := ih _ hinv
-    refine ⟨h1, ?_⟩
-    intro g
-    rw [show exec M calls ((g0, ch) :: rest) σ = exec M calls rest (exec1 M calls (g0, ch) σ) from rfl, h2 g]
-    by_cases hg : g0 = g
-    · subst hg
-      have : (exec1 M calls (g0, ch) σ).locals g0 = (stepG M (calls g0) ch σ.shared (σ.locals g0)).2 := by
-        simp [exec1]
-      rw [this, hstep.1]
-      simp only [moves, if_true]
-      rw [Nat.add_comm]
-      rfl
-    · have : (exec1 M calls (g0, ch) σ).locals g = σ.locals g := by
-        have hne : ¬ g = g0 := fun h => hg h.symm
-        simp [exec1, hne]
-      rw [this]
-      simp [moves, hg]
-
-theorem absStep_todo (M : Sem R B O Args Res κ ν) (W : Laws M) (c : Call Args κ) (A : AbsLocal O Res ν) :
-    (absStep M W c A).todo = A.todo.drop 1 := by
-  unfold absStep
-  cases h : A.todo with
-  | nil => simp [h]
-  | cons st rest =>
-    simp only [List.drop_succ_cons, List.drop_zero]
-    cases st with
-    | lruGet => simp only [absLruGet]; cases c.repl <;> rfl
-    | lruAdd => rfl
-    | getRunner => rfl
-    | poolGet => rfl
-    | runStep => simp only [absRunStep]; split <;> rfl
-    | putRunner => simp only [absPutRunner]; split <;> rfl
-    | poolPut => simp only [absPoolPut]; split <;> rfl
-
-theorem iterate_todo (M : Sem R B O Args Res κ ν) (W : Laws M) (c : Call Args κ) (n : Nat) (A : AbsLocal O Res ν) :
-    (iter (absStep M W c) n A).todo = A.todo.drop n := by
-  induction n generalizing A with
-  | zero => simp [iter]
-  | succ n ih =>
-    show (iter (absStep M W c) n (absStep M W c A)).todo = _
-    rw [ih, absStep_todo, List.drop_drop, Nat.add_comm]
-
-theorem iterate_done (M : Sem R B O Args Res κ ν) (W : Laws M) (c : Call Args κ) (k : Nat) (A : AbsLocal O Res ν)
-    (h : A.todo = []) : iter (absStep M W c) k A = A := by
-  induction k with
-  | zero => rfl
-  | succ k ih =>
-    show iter (absStep M W c) k (absStep M W c A) = A
-    have : absStep M W c A = A := by unfold absStep; simp [h]
-    rw [this, ih]
-
-theorem iterate_add {α' : Type} (f : α' → α') (m n : Nat) (x : α') : iter f (m + n) x = iter f n (iter f m x) := by
-  induction m generalizing x with
-  | zero => simp [iter]
-  | succ m ih =>
-    rw [Nat.succ_add]
-    show iter f (m + n) (f x) = iter f n (iter f m (f x))
-    exact ih (f x)
-
-/-- the call alone: the same semantics, one goroutine, its script run to the end on brand-new shared
-    state (empty pools, empty cache of any bound) -/
-def alone (M : Sem R B O Args Res κ ν) (c : Call Args κ) (maxSize : Nat) : Option Res :=
-  ((exec M (fun _ => c) (List.replicate (script c).length (0, 0))
-      (initState (fun _ => c) { runners := [], bufs := [], cache := LRU.empty maxSize })).locals 0).res
-
-theorem moves_replicate (n : Nat) : moves 0 (List.replicate n (0, 0)) = n := by
-  induction n with
-  | zero => rfl
-  | succ n ih => simp [List.replicate_succ, moves, ih]; omega
 
 /-- **Every interleaving equals the sequential execution.**  Let any number of goroutines each execute
     one call (`calls g`) on the same Regexp, starting from *any* shared state that satisfies the
